@@ -101,6 +101,14 @@ func expand(letters string, pool int, idle time.Duration, next *int) []tmh.Ev {
 			mine = append(mine, *next)
 			*next++
 		case 'B':
+			// burst of pool+1 futures that are due at once (zero delay): this is what makes the pool grow
+			for k := 0; k <= pool; k++ {
+				evs = append(evs, tmh.Ev{K: "call", F: *next, D: 0})
+				mine = append(mine, *next)
+				*next++
+			}
+		case 'b':
+			// burst of pool+1 futures with (nearly) equal deadlines in the future
 			for k := 0; k <= pool; k++ {
 				evs = append(evs, tmh.Ev{K: "call", F: *next, D: idle / 4})
 				mine = append(mine, *next)
@@ -117,6 +125,9 @@ func expand(letters string, pool int, idle time.Duration, next *int) []tmh.Ev {
 			// arrive exactly when an idle worker gives up: two hops of one idle timeout, each aligned with the
 			// worker's pending idle timer, so that the next event races the worker's exit
 			evs = append(evs, tmh.Ev{K: "sleep", D: idle/4 + idle/20}, tmh.Ev{K: "sleepalign", D: idle, B: idle / 2}, tmh.Ev{K: "sleepalign", D: idle, B: idle / 2})
+		case 'S':
+			// a quiet period shorter than the idle timeout: the burst has fired, the extra workers are still alive
+			evs = append(evs, tmh.Ev{K: "sleep", D: idle / 2})
 		case 'H':
 			evs = append(evs, tmh.Ev{K: "sleepalign", D: idle, B: idle / 2})
 		}
@@ -154,14 +165,14 @@ func main() {
 		jobs = append(jobs, job(sc, vsched.Config{P: p, Preempt: fine, MaxSteps: 40000}))
 	}
 	idles := []time.Duration{5 * time.Millisecond, 30 * time.Second}
-	alpha := "FNBXGE"
+	alpha := "FNBXGES"
 	if !run.Thorough() {
 		for _, idle := range idles {
 			for _, pool := range []int{1, 2, 3} {
 				for _, w := range words(alpha, 3)[1:] {
 					p := 2
-					if len(w) == 3 {
-						p = 1
+					if len(w) == 3 || strings.Contains(w, "B") {
+						p = 1 // bursts grow the pool (many runnable workers): P=2 for them is in the thorough tier
 					}
 					mk([]string{w}, pool, idle, p)
 				}
@@ -169,7 +180,11 @@ func main() {
 			for _, pool := range []int{1, 2} {
 				for _, w1 := range words("FNBX", 2)[1:] {
 					for _, w2 := range words("FNZ", 1)[1:] {
-						mk([]string{w1, w2}, pool, idle, 2)
+						p := 2
+						if strings.Contains(w1, "B") {
+							p = 1
+						}
+						mk([]string{w1, w2}, pool, idle, p)
 					}
 				}
 			}
@@ -177,7 +192,7 @@ func main() {
 	} else {
 		for _, idle := range idles {
 			for _, pool := range []int{1, 2, 3, 10} {
-				for _, w := range words(alpha+"Z", 4)[1:] {
+				for _, w := range words(alpha+"Zb", 4)[1:] {
 					mk([]string{w}, pool, idle, 1)
 				}
 				for _, w := range words(alpha, 3)[1:] {
@@ -195,7 +210,7 @@ func main() {
 	}
 	if w := os.Getenv("C13_DEBUG"); w != "" {
 		next := 0
-		sc := tmh.Script{Threads: [][]tmh.Ev{expand(w, 1, 5*time.Millisecond, &next)}, Pool: 1, Idle: 5 * time.Millisecond, N: next + 1, Restart: true, RestartDelay: time.Millisecond}
+		sc := tmh.Script{Threads: [][]tmh.Ev{expand(w, 2, 5*time.Millisecond, &next)}, Pool: 2, Idle: 5 * time.Millisecond, N: next + 1, Restart: true, RestartDelay: time.Millisecond}
 		obs := new(tmh.Obs)
 		x := vsched.Replay(vsched.Config{P: 0, Preempt: fine, MaxSteps: 40000}, nil, sc.Build(obs))
 		fmt.Println(vsched.FormatTrace(x))
